@@ -515,6 +515,9 @@ type SpecSet struct {
 	Guarded   map[string]string // "Server.peers" -> "Server.mu"
 	Joins     map[string]string // "fsm.doneCh" -> ghost field cleared on the owner when a receive from it returns
 	Delivers  map[string]bool   // joins-channels on which the goroutine sends exactly one value before closing
+	Threads   []*ThreadDecl
+	OwnedTypes []string
+	Owners    map[string]*OwnerDecl
 }
 
 func newSpecSet() *SpecSet {
@@ -522,6 +525,7 @@ func newSpecSet() *SpecSet {
 		Contracts: map[string]*Contract{}, Externs: map[string]*Contract{}, Callbacks: map[string]*Contract{},
 		Pures: map[string]*PureFn{}, Ghosts: map[string]*GhostField{}, ChanInvs: map[string]*PureFn{},
 		UFs: map[string]*UFDecl{}, Guarded: map[string]string{}, Joins: map[string]string{}, Delivers: map[string]bool{},
+		Owners: map[string]*OwnerDecl{},
 	}
 }
 
@@ -567,7 +571,7 @@ func loadSpecLines(path string) ([]specLine, error) {
 }
 
 var clauseKeywords = map[string]bool{
-	"func": true, "extern": true, "callback": true, "pure": true, "ghostfield": true, "chaninv": true, "axiom": true, "uf": true, "ghostvar": true, "guardedby": true, "joins": true, "delivers": true,
+	"func": true, "extern": true, "callback": true, "pure": true, "ghostfield": true, "chaninv": true, "axiom": true, "uf": true, "ghostvar": true, "guardedby": true, "joins": true, "delivers": true, "thread": true, "owner": true, "owned": true,
 	"requires": true, "ensures": true, "modifies": true, "let": true, "ghost": true, "returns": true,
 	"at": true, "trusted": true, "noinline": true, "params": true,
 }
@@ -738,6 +742,64 @@ func (ss *SpecSet) parseLine(l specLine, cur **Contract) error {
 		// deferred close of the goroutine whose "running" flag is ghostField
 		f, g := splitWord(rest)
 		ss.Joins[f] = strings.TrimSpace(g)
+		*cur = nil
+		return nil
+	case "owned":
+		// owned Type Type ... : every field of these struct types needs an owner/guardedby policy
+		ss.OwnedTypes = append(ss.OwnedTypes, strings.Fields(rest)...)
+		*cur = nil
+		return nil
+	case "thread":
+		// thread NAME[*] root root ... : a goroutine role; NAME* = several instances
+		// may run concurrently on the same object (API callers)
+		w := strings.Fields(rest)
+		if len(w) < 2 {
+			return fmt.Errorf("thread needs a name and at least one root")
+		}
+		td := &ThreadDecl{Name: strings.TrimSuffix(w[0], "*"), Multi: strings.HasSuffix(w[0], "*")}
+		for _, x := range w[1:] {
+			if strings.HasPrefix(x, "before=") {
+				td.Before = x[7:]
+			} else {
+				td.Roots = append(td.Roots, x)
+			}
+		}
+		ss.Threads = append(ss.Threads, td)
+		*cur = nil
+		return nil
+	case "owner":
+		// owner Type.field immutable
+		// owner Type.field write=r1,r2 read=r3,r4
+		w := strings.Fields(rest)
+		if len(w) < 2 {
+			return fmt.Errorf("owner needs a field and a policy")
+		}
+		od := &OwnerDecl{Field: w[0], Src: rest}
+		if k := strings.Index(rest, " writewhen "); k >= 0 {
+			ex, err := parseExpr(rest[k+11:])
+			if err != nil {
+				return fmt.Errorf("owner writewhen: %v", err)
+			}
+			od.WriteWhen, od.WhenSrc = ex, strings.TrimSpace(rest[k+11:])
+			w = strings.Fields(rest[:k])
+		}
+		for _, x := range w[1:] {
+			switch {
+			case strings.HasPrefix(x, "within="):
+				od.Within = x[7:]
+			case strings.HasPrefix(x, "sync="):
+				od.Sync = x[5:]
+			case x == "immutable":
+				od.Immutable = true
+			case strings.HasPrefix(x, "write="):
+				od.Writers = strings.Split(x[6:], ",")
+			case strings.HasPrefix(x, "read="):
+				od.Readers = strings.Split(x[5:], ",")
+			default:
+				return fmt.Errorf("owner: unknown policy item %q", x)
+			}
+		}
+		ss.Owners[od.Field] = od
 		*cur = nil
 		return nil
 	case "guardedby":
